@@ -245,7 +245,16 @@ func (s *vfSession) setupPair(t *vfTopo, ca, cb vfSideCfg, aControlling, bContro
 		return err
 	}
 
-	return s.B.start(bControlling, s.A.ufrag, s.A.pwd)
+	if err = s.B.start(bControlling, s.A.ufrag, s.A.pwd); err != nil {
+		return err
+	}
+	for _, x := range s.sides() {
+		if err = vfAwaitNotifiers(x.a); err != nil { // the Checking notification of the start is delivered asynchronously
+			return err
+		}
+	}
+
+	return nil
 }
 
 // chaos runs n scheduler steps: ticks (bounded per agent), deliveries in random order, drops, duplicates, trickling.
